@@ -14,7 +14,7 @@ Open Scope Z_scope.
 (* round a non-negative integer to 53 significant bits, ties to even *)
 Definition round53N (n : N) : N :=
   let b := N.size n in                      (* bit length *)
-  if (b <=? 53)%N then n
+  if (n <? 9007199254740992)%N then n       (* < 2^53: exactly representable *)
   else
     let sh := (b - 53)%N in
     let q := N.shiftr n sh in
@@ -58,15 +58,16 @@ Fixpoint only_numeric_chars (s : string) : bool :=
   end.
 
 Definition str2number (s : string) : tonum :=
+  if (all_digits s && negb (String.eqb s ""))%bool
+  then match parse_dec s with Some n => TNum (round53 (Z.of_N n)) | None => TUnsupported end
+  else
   match s with
   | String "-" r =>
       if (all_digits r && negb (String.eqb r ""))%bool
       then match parse_dec r with Some n => TNum (round53 (- Z.of_N n)) | None => TUnsupported end
       else if only_numeric_chars s then TUnsupported else TNotNumber
   | _ =>
-      if (all_digits s && negb (String.eqb s ""))%bool
-      then match parse_dec s with Some n => TNum (round53 (Z.of_N n)) | None => TUnsupported end
-      else if String.eqb (ltrim s) "" then TNotNumber          (* "" and blanks are not numbers *)
+      if String.eqb (ltrim s) "" then TNotNumber          (* "" and blanks are not numbers *)
       else if only_numeric_chars s then TUnsupported else TNotNumber
   end.
 
@@ -91,7 +92,7 @@ Fixpoint incr_digits (l : list nat) : bool * list nat :=
 Definition fmt_g_abs (prec : nat) (n : N) : string :=
   let ds := digits_of (dec n) in
   let len := List.length ds in
-  if Nat.leb len prec then dec n
+  if (n <? 10 ^ N.of_nat prec)%N then dec n   (* at most prec digits: printed exactly *)
   else
     let keep := firstn prec ds in
     let rest := skipn prec ds in
